@@ -104,6 +104,7 @@ package prunner
 // ---------------------------------------------------------------------------------------
 // Ghost state
 //@ ghost $persist scalar Bool
+//@ ghost $failFastIssued scalar Bool
 
 //@ func (*PipelineRunner).requestPersist
 //@   lockmode any
@@ -115,8 +116,9 @@ package prunner
 //@   lockmode W
 //@   requires [nonnil] j != nil
 //@   ensures  [canceled] j.Canceled && forall i :: 0 <= i && i < len(j.Tasks) ==> j.Tasks[i].Canceled
+//@   ensures  [mono] TtaskCanceled()
 //@   modifies PipelineJob.Canceled@[j], jobTask.Canceled
-//@   loop 1 invariant [tasks] 0 <= $i + 1 && $i + 1 <= len(j.Tasks) && j.Canceled && (forall i :: 0 <= i && i <= $i ==> j.Tasks[i].Canceled)
+//@   loop 1 invariant [tasks] 0 <= $i + 1 && $i + 1 <= len(j.Tasks) && j.Canceled && (forall i :: 0 <= i && i <= $i ==> j.Tasks[i].Canceled) && TtaskCanceled()
 
 //@ func (*PipelineJob).deinitScheduler
 //@   lockmode W
@@ -146,6 +148,7 @@ package prunner
 //@ pure progress(r *PipelineRunner, p string) bool = len(r.waitListByPipeline[p]) == 0 || running(r, p) >= conc(r, p) || r.waitListByPipeline[p][0].startTimer != nil
 //@ pure notOnList(r *PipelineRunner, job *PipelineJob) bool = all(r.waitListByPipeline[job.Pipeline], neq, job)
 //@ pure suffixOf(a []*PipelineJob, b []*PipelineJob) bool = base(a) == base(b) && off(a) >= off(b) && off(a) + len(a) == off(b) + len(b)
+//@ pure TtaskCanceled() bool = forall x *jobTask :: old(x.Canceled) ==> x.Canceled
 //@ pure Tcanceled() bool = forall j *PipelineJob :: wasAllocated(j) && (old(j.Canceled) || old(j.Start) != nil) ==> j.Start == old(j.Start) && j.LastError == old(j.LastError) && j.sched == old(j.sched) && j.startTimer == old(j.startTimer) && j.Canceled == old(j.Canceled)
 
 //@ func buildJobTasks
@@ -218,7 +221,7 @@ package prunner
 //@   ensures  [C05.offList] (id in old(r.jobsByID)) && old(jobWaiting(r.jobsByID[id])) && !old(r.jobsByID[id].Completed) ==> notOnList(r, old(r.jobsByID[id]))
 //@   ensures  [C04.running] (id in old(r.jobsByID)) && old(jobRunning(r.jobsByID[id])) ==> res == nil && same(PipelineJob.Canceled) && same(PipelineJob.Start) && same(PipelineJob.Completed) && same("map(map[string][]*PipelineJob)") && (old(r.jobsByID[id].sched) != nil ==> $cancelSpawned[old(r.jobsByID[id])] == old($cancelSpawned[r.jobsByID[id]]) + 1)
 //@   ensures  [C03.progress] (id in old(r.jobsByID)) && old(jobWaiting(r.jobsByID[id])) && !old(r.jobsByID[id].Completed) ==> progress(r, old(r.jobsByID[id]).Pipeline)
-//@   ensures  [T] Tjobs()
+//@   ensures  [T] Tjobs() && TtaskCanceled()
 //@   ensures  [defs] r.defs == old(r.defs) && same(PipelineJob.Completed) && same("map(map[uuid.UUID]*PipelineJob)")
 //@   modifies PipelineJob.Start, PipelineJob.sched, PipelineJob.taskRunner, PipelineJob.LastError, PipelineJob.Canceled, PipelineJob.startTimer, jobTask.Canceled, taskctl.Scheduler.onStageChange, map(map[string][]*PipelineJob)@[r.waitListByPipeline], mem(time.Time), mem(*PipelineJob), $persist, $clock, $stopped, $cancelSpawned, $wgTokens
 //@   at go (*PipelineRunner).cancelJobInternal$1#1: ghost $cancelSpawned[job] := $cancelSpawned[job] + 1
@@ -313,6 +316,11 @@ package prunner
 
 //@ func (*PipelineRunner).HandleTaskChange
 //@   lockmode none
+//@   at call (*PipelineRunner).cancelJobInternal#1: assert [C08.failFastOnlyOnError] jt.Errored && !pipelineDef.ContinueRunningTasksAfterFailure && found && jobID == j.ID
+//@   at call (*PipelineRunner).requestPersist#1: assert [C08.taskCopy] (errIs(t.Error, context.Canceled) ==> jt.Canceled) && (!errIs(t.Error, context.Canceled) ==> jt.Errored == t.Errored && jt.Error == t.Error) && jt.ExitCode == t.ExitCode && jt.Skipped == t.Skipped
+//@   at call (*PipelineRunner).requestPersist#1: assert [C08.failFast] jt.Errored && (j.Pipeline in r.defs.Pipelines) && !r.defs.Pipelines[j.Pipeline].ContinueRunningTasksAfterFailure ==> $failFastIssued
+//@   at call (*PipelineRunner).cancelJobInternal#1: ghost $failFastIssued := true
+//@   assumes  [noPending] !$failFastIssued
 //@   ensures  [T] Tjobs()
 //@   ensures  [defs] r.defs == old(r.defs)
 
@@ -478,4 +486,5 @@ package prunner
 //@ property C12: prunner.*/ensures[C12.*] prunner.(*PipelineRunner).SaveToStore/* prunner.removeJobFromList/* prunner.byCreationTimeDesc/ensures*
 //@ property C13: prunner.*/lock[read] prunner.*/lock[write] prunner.*/lockproto[*] prunner.*/call-pre[*.lockmode]* prunner.*/call-pre[*.guard]* prunner.*/call-pre[*.empty]* prunner.*/ensures[unpublished]
 //@ property C15: prunner.*/ensures[C15.*] prunner.(*PipelineRunner).resolveScheduleAction/ensures[range] prunner.(*PipelineRunner).isRunning/loop* prunner.(*PipelineRunner).ReadJob/* prunner.(*PipelineRunner).IterateJobs/ensures* prunner.(*PipelineRunner).ListPipelines/ensures* prunner.(*PipelineRunner).ListPipelines/loop*
+//@ property C08: prunner.*/assert[C08.*] prunner.(*PipelineRunner).JobCompleted/ensures[C04.verdict] prunner.*/assert[C04.cancelMeansError] prunner.(jobTasks).ByName/*
 //@ property C16: prunner.*/ensures[C16.*] prunner.*/ensures[defs] prunner.(*PipelineRunner).resolveDequeueJobAction/ensures[C03.dequeueDecision] prunner/writers[PipelineJob.Tasks] prunner/writers[PipelineJob.Env] prunner/writers[PipelineJob.Variables] prunner/writers[PipelineJob.StartDelay] prunner/writers[PipelineRunner.defs] prunner.*/call-pre[(*PipelineRunner).startJob.timerDone]*
